@@ -69,8 +69,13 @@ Fixpoint break_at (p : byte -> bool) (s : str) : str * str :=
               else let '(a, b) := break_at p t in (x :: a, b)
   end.
 
+(* the stop conditions of the scanning loops *)
+Definition is_sep_or_at (sep : byte) (x : byte) : bool := Byte.eqb x sep || Byte.eqb x c_at.
+
 Definition is_digit (x : byte) : bool :=
   let n := Byte.to_N x in (48 <=? n) && (n <=? 57).
+
+Definition non_digit (x : byte) : bool := negb (is_digit x).
 
 Definition is_letter (x : byte) : bool :=
   let n := Byte.to_N x in ((97 <=? n) && (n <=? 122)) || ((65 <=? n) && (n <=? 90)).
@@ -201,57 +206,63 @@ Definition is_scp_ssh_url (raw : str) (k : kind) : bool :=
 
 (* ---------- parseSCPSSH ---------- *)
 
+(* first loop: the user name is the text before an '@' that comes before any
+   ':'; returns (user, remaining text) *)
+Definition ssh_user_step (raw : str) : perr + (str * str) :=
+  match break_at (is_sep_or_at c_colon) raw with
+  | (pre, x :: after) =>
+      if Byte.eqb x c_at
+      then match pre with [] => inl EEmptyUser | _ => inr (pre, after) end
+      else inr ([], raw)
+  | (_, []) => inr ([], raw)
+  end.
+
+(* second loop: the host name is the text before the next ':' *)
+Definition ssh_host_step (raw1 : str) : perr + (str * str) :=
+  match break_at (byte_is c_colon) raw1 with
+  | (_, []) => inl ENoHost
+  | ([], _ :: _) => inl EEmptyHost
+  | (host, _ :: raw2) => inr (host, raw2)
+  end.
+
+(* third loop: a run of digits followed by ':' is a port *)
+Definition ssh_port_step (fx : fixes) (raw2 : str) : perr + (N * str) :=
+  match break_at non_digit raw2 with
+  | (digits, x :: after) =>
+      if Byte.eqb x c_colon
+      then match parse_uint16 digits with
+           | None => inl EInvalidPort
+           | Some p =>
+               if fx_port0 fx && (p =? 0) then inl EInvalidPort
+               else inr (p, after)
+           end
+      else inr (0, raw2)
+  | (_, []) => inr (0, raw2)
+  end.
+
+Definition path_check (k : kind) (path : str) : perr + unit :=
+  match k with
+  | KSync => match path with [] => inl EEmptyPath | _ => inr tt end
+  | KFwd => match fwd_parse path with None => inl EInvalidFwd | Some _ => inr tt end
+  end.
+
 Definition parse_ssh (fx : fixes) (raw : str) (k : kind) : perr + url :=
-  (* user name: up to an '@' that comes before any ':' *)
-  let '(pre, rest) := break_at (fun x => Byte.eqb x c_colon || Byte.eqb x c_at) raw in
-  let user_step : perr + (str * str) :=
-      match rest with
-      | x :: after =>
-          if Byte.eqb x c_at
-          then match pre with [] => inl EEmptyUser | _ => inr (pre, after) end
-          else inr ([], raw)
-      | [] => inr ([], raw)
-      end in
-  match user_step with
+  match ssh_user_step raw with
   | inl e => inl e
   | inr (user, raw1) =>
       if fx_dash fx && starts_with_dash user then inl EDash else
-      (* host name: up to the next ':' *)
-      match break_at (byte_is c_colon) raw1 with
-      | (_, []) => inl ENoHost
-      | (host, _ :: raw2) =>
-          match host with
-          | [] => inl EEmptyHost
-          | _ =>
-              if fx_dash fx && starts_with_dash host then inl EDash else
-              (* port: a run of digits followed by ':' *)
-              let '(digits, rest2) := break_at (fun x => negb (is_digit x)) raw2 in
-              let port_step : perr + (N * str) :=
-                  match rest2 with
-                  | x :: after =>
-                      if Byte.eqb x c_colon
-                      then match parse_uint16 digits with
-                           | None => inl EInvalidPort
-                           | Some p =>
-                               if fx_port0 fx && (p =? 0) then inl EInvalidPort
-                               else inr (p, after)
-                           end
-                      else inr (0, raw2)
-                  | [] => inr (0, raw2)
-                  end in
-              match port_step with
+      match ssh_host_step raw1 with
+      | inl e => inl e
+      | inr (host, raw2) =>
+          if fx_dash fx && starts_with_dash host then inl EDash else
+          match ssh_port_step fx raw2 with
+          | inl e => inl e
+          | inr (port, path) =>
+              match path_check k path with
               | inl e => inl e
-              | inr (port, path) =>
-                  let ok := match k with
-                            | KSync => match path with [] => inl EEmptyPath | _ => inr tt end
-                            | KFwd => match fwd_parse path with None => inl EInvalidFwd | Some _ => inr tt end
-                            end in
-                  match ok with
-                  | inl e => inl e
-                  | inr _ =>
-                      inr {| u_kind := k; u_proto := PSSH; u_user := user; u_host := host;
-                             u_port := port; u_path := path; u_env := []; u_params := [] |}
-                  end
+              | inr _ =>
+                  inr {| u_kind := k; u_proto := PSSH; u_user := user; u_host := host;
+                         u_port := port; u_path := path; u_env := []; u_params := [] |}
               end
           end
       end
@@ -259,38 +270,51 @@ Definition parse_ssh (fx : fixes) (raw : str) (k : kind) : perr + url :=
 
 (* ---------- parseDocker ---------- *)
 
+(* first loop: the user name is the text before an '@' that comes before the
+   split character *)
+Definition docker_user_step (fx : fixes) (split : byte) (raw0 : str) : perr + (str * str) :=
+  match break_at (is_sep_or_at split) raw0 with
+  | (pre, x :: after) =>
+      if Byte.eqb x split then inr ([], raw0)
+      else match pre with
+           | [] => if fx_duser fx then inl EEmptyUser else inr ([], after)
+           | _ => inr (pre, after)
+           end
+  | (_, []) => inr ([], raw0)
+  end.
+
+(* second loop: container = text before the split character, path = the rest
+   including that character *)
+Definition docker_container_step (split : byte) (raw1 : str) : perr + (str * str) :=
+  match break_at (byte_is split) raw1 with
+  | (_, []) => inl EEmptyContainer               (* no split character *)
+  | ([], _) => inl EEmptyContainer
+  | (container, path0) => inr (container, path0)
+  end.
+
+(* path processing for synchronization URLs; [path0] starts with '/' *)
+Definition docker_sync_path (path0 : str) : str :=
+  let path1 := match path0 with
+               | _ :: (y :: _) as t => if Byte.eqb y c_tilde then t else path0
+               | _ => path0
+               end in
+  if is_windows_path (tl path1) then tl path1 else path1.
+
 Definition parse_docker (fx : fixes) (raw : str) (k : kind) (env : list (str * str)) : perr + url :=
   let raw0 := skipn 9 raw in                       (* raw[len(dockerURLPrefix):] *)
   let split := match k with KSync => c_slash | KFwd => c_colon end in
-  let '(pre, rest) := break_at (fun x => Byte.eqb x split || Byte.eqb x c_at) raw0 in
-  let user_step : perr + (str * str) :=
-      match rest with
-      | x :: after =>
-          if Byte.eqb x split then inr ([], raw0)
-          else match pre with
-               | [] => if fx_duser fx then inl EEmptyUser else inr ([], after)
-               | _ => inr (pre, after)
-               end
-      | [] => inr ([], raw0)
-      end in
-  match user_step with
+  match docker_user_step fx split raw0 with
   | inl e => inl e
   | inr (user, raw1) =>
       if fx_dash fx && starts_with_dash user then inl EDash else
-      match break_at (byte_is split) raw1 with
-      | (_, []) => inl EEmptyContainer               (* no split character *)
-      | ([], _) => inl EEmptyContainer
-      | (container, path0) =>
+      match docker_container_step split raw1 with
+      | inl e => inl e
+      | inr (container, path0) =>
           if fx_dash fx && starts_with_dash container then inl EDash else
           match k with
           | KSync =>
-              let path1 := match path0 with
-                           | _ :: (y :: _) as t => if Byte.eqb y c_tilde then t else path0
-                           | _ => path0
-                           end in
-              let path2 := if is_windows_path (tl path1) then tl path1 else path1 in
               inr {| u_kind := k; u_proto := PDocker; u_user := user; u_host := container;
-                     u_port := 0; u_path := path2; u_env := env; u_params := [] |}
+                     u_port := 0; u_path := docker_sync_path path0; u_env := env; u_params := [] |}
           | KFwd =>
               let path1 := tl path0 in
               match fwd_parse path1 with
